@@ -63,7 +63,8 @@ def main(argv):
 
     os.makedirs(corpus, exist_ok=True)
     dump()
-    atheris.Setup([sys.argv[0], f"-runs={runs}", f"-seed={seed}", "-max_len=96", "-print_final_stats=0", "-verbosity=0", corpus], target)
+    atheris.Setup([sys.argv[0], f"-runs={runs}", f"-seed={seed}", "-max_len=96", "-print_final_stats=0", "-verbosity=0",
+                   "-artifact_prefix=" + os.path.join(os.path.abspath(corpus), "artifact-"), corpus], target)
     atheris.Fuzz()
 
 
